@@ -765,6 +765,15 @@ class Gen:
         except Exception as e:
             raise BuildRaised("subgraph", e) from e
         MON.bind_graph(holder["frame"], g)
+        # like graph outputs: where the builder could not infer a body output's type/shape (e.g. derived from a Loop result)
+        # the user supplies it (ORT's Scan/Loop need shapes on subgraph outputs)
+        for o, exs in zip(g.outputs, holder.get("out_examples") or []):
+            if o.type is None:
+                o.type = ir.TensorType(np_to_ir_dtype(exs[0].dtype))
+                self.counts["body_output_type_supplied"] = self.counts.get("body_output_type_supplied", 0) + 1
+            if o.shape is None and len({tuple(e.shape) for e in exs}) == 1:
+                o.shape = ir.Shape(list(exs[0].shape))
+                self.counts["body_output_shape_supplied"] = self.counts.get("body_output_shape_supplied", 0) + 1
         self.features.add("subgraph")
         self.counts["subgraphs"] = self.counts.get("subgraphs", 0) + 1
         return g, holder
